@@ -21,7 +21,7 @@ Kinds == {"base", "constant", "structured", "axiom", "term", "function", "theore
 Letter(k) == CASE k = "base" -> "X" [] k = "constant" -> "C" [] k = "structured" -> "S" [] k = "axiom" -> "A"
                [] k = "term" -> "D" [] k = "function" -> "F" [] k = "theorem" -> "T" [] k = "predicate" -> "P"
 Mk(k, n) == Letter(k) \o ToString(n)
-MaxIndex == 12
+MaxIndex == 24
 \* kind a name denotes (a letter of XCSADTFP followed by digits), "none" for ill-formed names
 OddNames == {"Q7", "x1", "X", "D01", "X1a", ""}
 KindOfName(a) == IF \E k \in Kinds, n \in 1..MaxIndex : a = Mk(k, n)
